@@ -400,16 +400,105 @@ def vmatchL : List Val → List Val → Bool
   | _, _ => false
 end
 
+def natList : List Val → Option (List Nat)
+  | [] => some []
+  | .int n :: r => if n < 0 then none else (natList r).map (n.toNat :: ·)
+  | _ => none
+
+/-! ## more reference verbs (oracle only: no implementation model yet) -/
+
+/-- Join on non-dictionary operands (manual's case list) -/
+def refJoin : Val → Val → Option Val
+  | .dict _, _ => none
+  | _, .dict _ => none
+  | .list xs, .list ys => some (.list (xs ++ ys))
+  | .list xs, b => some (.list (xs ++ [b]))
+  | a, .list ys => some (.list (a :: ys))
+  | .str a, .str b => some (.str (a ++ b))
+  | .str a, .chr c => some (.str (a ++ [c]))
+  | .chr c, .str b => some (.str (c :: b))
+  | .chr a, .chr b => some (.str [a, b])
+  | a, b => some (.list [a, b])
+
+def seqElems : Val → Option (List Val)
+  | .list xs => some xs
+  | .str cs => some (strChars cs)
+  | _ => none
+
+/-- rebuild a list of extracted elements: characters of a string stay a string -/
+def reseq (isStr : Bool) (xs : List Val) : Option Val :=
+  if isStr then (joinChars xs).map .str else some (.list xs)
+
+/-- a@b for an integer index or a list of integer indices (0 ≤ i < #a) -/
+def refIndex (a b : Val) : Option Val :=
+  match seqElems a with
+  | none => none
+  | some es =>
+    let isStr := match a with | .str _ => true | _ => false
+    match b with
+    | .int i => if i < 0 then none else es[i.toNat]?
+    | .list ixs =>
+      match natList ixs with
+      | some is => if is.isEmpty then none else (is.mapM fun i => es[i]?).bind (reseq isStr)
+      | none => none
+    | _ => none
+
+/-- positions of the matches of an element in a list / a character in a string -/
+def refFindElem (es : List Val) (b : Val) : List Val :=
+  (es.zipIdx.filter fun p => vmatch p.1 b).map fun p => Val.int (p.2 : Nat)
+
+def isPrefix : List Nat → List Nat → Bool
+  | [], _ => true
+  | _ :: _, [] => false
+  | a :: as, b :: bs => a == b && isPrefix as bs
+
+/-- positions of a substring (the empty string is found at every position 0..#a) -/
+def refFindSub (a b : List Nat) : List Val :=
+  ((List.range (a.length + 1)).filter fun i => isPrefix b (a.drop i) && i + b.length ≤ a.length).map
+    fun (i : Nat) => Val.int (i : Int)
+
+/-- shape of a regular array (strings may be the innermost level); ragged nests are vectors -/
+def refShape : Val → List Nat
+  | .list [] => [0]
+  | .list (x :: xs) =>
+    let s := refShape x
+    let inner := match x with | .list _ => true | .str (_ :: _) => true | _ => false
+    if inner && (refShapes xs).all (fun t => t == s) then (xs.length + 1) :: s else [xs.length + 1]
+  | .str cs => if cs.isEmpty then [] else [cs.length]
+  | _ => []
+where
+  refShapes : List Val → List (List Nat)
+    | [] => []
+    | y :: ys => refShape y :: refShapes ys
+
+def transposeRows : List (List Val) → List (List Val)
+  | [] => []
+  | r :: rs =>
+    if r.isEmpty then [] else
+    (List.range r.length).map fun j => (r :: rs).filterMap fun row => row[j]?
+
+/-- cyclic fill of a shape from a flat element list -/
+def reshapeFill (fuel : Nat) (dims : List Nat) (flat : List Val) (off : Nat) : Val :=
+  match fuel, dims with
+  | _, [] => flat.getD (off % flat.length) .undef
+  | 0, _ => .undef
+  | fuel + 1, d :: ds =>
+    let stride := ds.foldl (· * ·) 1
+    .list ((List.range d).map fun i => reshapeFill fuel ds flat (off + i * stride))
+
+def flattenAll : Val → List Val
+  | .list xs => flattenList xs
+  | a => [a]
+where
+  flattenList : List Val → List Val
+    | [] => []
+    | y :: ys => flattenAll y ++ flattenList ys
+
 /-! ## verb tables -/
 
 def aopOf : String → Option AOp
   | "+" => some .add | "-" => some .sub | "*" => some .mul | "&" => some .min | "|" => some .max
   | "<" => some .lt | ">" => some .gt | "=" => some .eq | "!" => some .rem | ":%" => some .idiv
-  | _ => none
-
-def natList : List Val → Option (List Nat)
-  | [] => some []
-  | .int n :: r => if n < 0 then none else (natList r).map (n.toNat :: ·)
   | _ => none
 
 def isSeq : Val → Bool
@@ -459,6 +548,35 @@ def refDyad (verb : String) (a b : Val) : Option Val :=
         | _ => none
       | none => none
     | "~", a, b => some (b2i (vmatch a b))
+    | ",", a, b => refJoin a b
+    | "@", a, b => refIndex a b
+    | "?", .list es, b =>
+      (match b with
+       | .list _ => none
+       | .chr _ => none | .str _ => none      -- 0ca vs "a": identified by klongpy's own = / ~
+       | _ => some (.list (refFindElem es b)))
+    | "?", .str a, .chr c => some (.list (refFindElem (strChars a) (.chr c)))
+    | "?", .str a, .str b => some (.list (refFindSub a b))
+    | ":^", .list dims, b =>
+      (match natList dims with
+       | some ds =>
+         let flat := flattenAll b
+         -- defined here for a flat vector or an atom (the manual's own examples disagree on how a
+         -- nested source is traversed); strings are left out
+         let flatSrc := match b with
+           | .list xs => xs.all (fun x => match x with | .list _ => false | .str _ => false | _ => true)
+           | .str _ => false
+           | _ => true
+         if ds.isEmpty || ds.any (· == 0) || flat.isEmpty || !flatSrc then none
+         else some (reshapeFill (ds.length + 1) ds flat 0)
+       | none => none)
+    | ":^", .int n, b =>
+      let flat := flattenAll b
+      let flatSrc := match b with
+        | .list xs => xs.all (fun x => match x with | .list _ => false | .str _ => false | _ => true)
+        | .str _ => false
+        | _ => true
+      if n ≤ 0 || flat.isEmpty || !flatSrc then none else some (reshapeFill 2 [n.toNat] flat 0)
     | _, _, _ => none
 
 /-- implementation model for dyads -/
@@ -505,6 +623,39 @@ def refMonad (verb : String) (a : Val) : Option Val :=
   | "=", .list xs => some (.list ((refGroup vmatch xs).map fun g => .list (g.map fun (i : Nat) => Val.int (i : Int))))
   | "=", .str cs => some (.list ((refGroup vmatch (strChars cs)).map fun g => .list (g.map fun (i : Nat) => Val.int (i : Int))))
   | "@", a => some (b2i a.isAtom)
+  | "^", .list [] => some (.int 0)         -- [] is an atom
+  | "^", .list xs =>
+    -- left undefined where the manual's wording is ambiguous: empty members (atoms that are
+    -- also lists/strings) and rows of equal length that are themselves irregular
+    let hasEmpty := xs.any (fun x => match x with | .list [] => true | .str [] => true | _ => false)
+    let rowsIrregular := xs.all (fun x => match x with | .list (_ :: _) => true | _ => false) &&
+      (xs.map seqLen).all (· == seqLen (xs.headD .undef)) &&
+      xs.any (fun x => match x with
+        | .list ys => ys.any (fun y => match y with | .list _ => true | _ => false) &&
+                      (refShape x).length == 1
+        | _ => false)
+    if hasEmpty || rowsIrregular then none
+    else some (.list ((refShape (.list xs)).map fun (n : Nat) => Val.int (n : Int)))
+  | "^", .str (c :: cs) => some (.list [.int ((c :: cs).length : Nat)])
+  | "^", .str [] => none
+  | "^", _ => some (.int 0)
+  | "+", .list [] => some (.list [])
+  | "+", .list rows =>
+    (match rows.mapM (fun r => match r with | .list xs => some xs | _ => none) with
+     | some rs =>
+       if rs.all (fun r => r.length == (rs.headD []).length) && !(rs.headD []).isEmpty
+          && rs.all (fun r => r.all (fun x => x.isAtom))       -- a matrix (2-array) only
+       then some (.list ((transposeRows rs).map .list)) else none
+     | none => none)
+  | "~", .int n => some (b2i (n == 0))
+  | "~", .list [] => some (.int 1)
+  | "~", .str [] => some (.int 1)
+  | "~", .real b => some (b2i (Float.ofBits b == 0))
+  | "~", .sym _ => some (.int 0)
+  | "~", .chr _ => some (.int 0)
+  | "#", .int n => some (.int n.natAbs)
+  | "#", .chr c => some (.int c)
+  | "_", .int n => some (.int n)
   | ",", .chr c => some (.str [c])       -- a list of one character is a string
   | ",", a => some (.list [a])
   | _, _ => none
